@@ -25,7 +25,7 @@ from ..translate import blocks, ir
 THEOREMS = ["twosum", "fast_twosum", "twosum_fix_overflow", "fast2sum_fix_overflow", "ties_add_2sum",
             "twosum_generated", "fast2sum_generated", "twosum_fix_generated", "fast2sum_fix_generated", "generated_wf",
             "twosum_bit_exact", "twosum_bit_exact_any_format", "fast2sum_bit_exact_any_format", "soft_ops_correctly_rounded", "soft_div_correctly_rounded",
-            "veltkamp_split", "veltkamp_split_utils", "veltkamp_split_every_finite", "dekker_product", "dekker_product_utils", "dekker_product_fix_overflow", "ties_dekker_fix", "veltkamp_split_scaled", "ties_split_scaled", "dekker_product_scaled", "ties_dekker_scaled", "dekker_product_scaled_fix_overflow", "ties_dekker_scaled_fix", "split_constants", "ties_split_dekker",
+            "veltkamp_split", "veltkamp_split_utils", "veltkamp_split_every_finite", "dekker_product", "dekker_product_subnormal_operands", "dekker_product_utils", "dekker_product_fix_overflow", "ties_dekker_fix", "veltkamp_split_scaled", "ties_split_scaled", "dekker_product_scaled", "ties_dekker_scaled", "dekker_product_scaled_fix_overflow", "ties_dekker_scaled_fix", "split_constants", "ties_split_dekker",
             "dekker_generated", "split_generated", "soft_refines_rational", "refinement_scope", "dekker_kinds", "dekker_bit_exact_f32", "dekker_bit_exact_f16", "dekker_bit_exact_f64", "dekker_default_bit_exact_f32", "dekker_default_bit_exact_f16", "dekker_default_bit_exact_f64", "copies_agree_f16", "copies_agree_f32", "copies_agree_f64"]
 SEARCHED = ["Veltkamp splitter x = xh + xl and half-significand bit bounds (all variants, scale on/off; subnormal inputs)",
             "Dekker product h + l = x*y (all variants; scale=True, fix_overflow, apmath two_prod/split, algorithms.py copies are search-only)", "fix_overflow fallbacks", "float64/float32/float16 machine arithmetic = round-to-nearest (Soft vs NumPy)"]
@@ -47,9 +47,9 @@ LEVEL_TEXT = ("Proof for 2Sum and Fast2Sum (with and without fix_overflow): (1) 
               "every partial product and partial sum is shown representable. (3) Refinement theorem soft_refines_rational: for EVERY program of the arithmetic/comparison/select "
               "fragment, every format and input, the bit-exact softfloat run refines the run over Q with round-to-nearest-even whenever all float nodes are finite; through it "
               "Dekker's product is exact ON BIT PATTERNS for the regenerated mul_dekker in float16/32/64 (dekker_bit_exact_*) and, with its DEFAULT options (dekker_default_bit_exact_f16/f32/f64). mul_dekker(fix_overflow=True) keeps the exact pair whenever |xh*yh| does not exceed the largest finite value (dekker_product_fix_overflow, ties_dekker_fix). split_veltkamp(scale=True) satisfies the same statement for every normal |x| <= x_max (veltkamp_split_scaled, ties_split_scaled: scaling by 2^-t and back is exact). mul_dekker with its default options (scale=True) is exact for normal |x|, |y| <= x_max (dekker_product_scaled, ties_dekker_scaled). The copies (apmath two_sum / quick_two_sum / split / two_prod; the algorithms.py and utils.py copies) return, for EVERY input pattern, the same bit patterns as the functions above (copies_agree_f16/32/64), so the theorems hold for them too. scale=True with fix_overflow=True likewise (dekker_product_scaled_fix_overflow): the whole option matrix of mul_dekker is covered. The apmath and algorithms.py copies (they carry "
-              "non-finite constants and selects) and subnormal operands are decided by exact-rational search on the real functions.")
+              "non-finite constants and selects) over Q are decided by exact-rational search on the real functions (bit level: copies_agree). Subnormal operands: the unscaled splitters are exact on EVERY representable x including subnormals and zero (veltkamp_split_every_finite: veltkamp_gen is proved on the 2^emin lattice), and the unscaled Dekker product is exact with subnormal operands under the one documented condition ex + ey >= emin (dekker_product_subnormal_operands); for the scaled variants subnormal operands are decided by search.")
 LEVEL_NOTE = ("Overflow excluded by hypothesis as the property words it. Softfloat == machine arithmetic is validated by a 3-way bit-level cross-check each run "
-              "(and its add/sub/mul/div are proved correctly rounded). Splitter/Dekker: theorems for the unscaled variants on normal operands; scaled/fix_overflow/apmath variants and subnormals by search.")
+              "(and its add/sub/mul/div are proved correctly rounded). Splitter/Dekker: theorems for all option combinations on normal operands and for the unscaled variants also on subnormal operands; |x| > x_max and scaled variants on subnormal operands by search.")
 TECHNIQUE = "Lean 4 proof (Flocq-style FP theory over Q) on translator-regenerated DAGs + bit-level 3-way correspondence + exact-rational search"
 
 FMTS = ["float16", "float32", "float64"]
